@@ -24,7 +24,9 @@ inline long raw_syscall6(long n, long a, long b, long c, long d, long e, long f)
 }
 }  // namespace vf
 
-extern "C" long syscall(long number, ...) noexcept {
+// no_sanitize_address: the 6 va_args are read unconditionally (callers of 3-argument syscalls
+// pass fewer), which ASan's fake-stack mode can report as a stack-buffer-underflow.
+extern "C" __attribute__((no_sanitize_address)) long syscall(long number, ...) noexcept {
   va_list ap;
   va_start(ap, number);
   long a = va_arg(ap, long), b = va_arg(ap, long), c = va_arg(ap, long), d = va_arg(ap, long),
